@@ -154,8 +154,16 @@ def run(chk, ctx) -> None:
         ok = bool(rets) and all(r in (('const', True), ('const', False)) for r in rets) \
             and ('const', True) in rets and ('const', False) in rets
         falls = [p for p in ctx.paths(qf) if not p.returned]
-        chk.ob('C08.query_shape', f'State.{q}', ok and not falls, qf.loc,
-               'the query returns True after the verifier passes, False from the handler, nothing else')
+        # ... and nothing else decides: the body is the try around the verifier (an answer given before asking the verifier is an
+        # answer the operation does not share)
+        stmts = [st for st in qf.body if not (isinstance(st, ast.Expr) and isinstance(st.value, ast.Constant))]
+        only_try = bool(stmts) and isinstance(stmts[0], ast.Try) and all(
+            isinstance(st, ast.Return) and isinstance(st.value, ast.Constant) and st.value.value is True for st in stmts[1:]) \
+            and all(len(h.body) == 1 and isinstance(h.body[0], ast.Return) and isinstance(h.body[0].value, ast.Constant)
+                    and h.body[0].value.value is False for h in stmts[0].handlers)
+        chk.ob('C08.query_shape', f'State.{q}', ok and not falls and only_try, qf.loc,
+               'the query returns True after the verifier passes, False from the handler, nothing else: it has no test of its own',
+               got=[stmt_text(st, 60) for st in stmts if not isinstance(st, ast.Try)][:2] or None)
     chk.floor('C08.query_shape', 17)
     _callbacks(chk, ctx)
 
